@@ -17,7 +17,7 @@ Has(t, s) == \E i \in 1..Len(t) : t[i] = s
 Init == l = 1 /\ table = <<>> /\ wtable = <<>> /\ viol = <<>>
 Next == /\ l <= Len(Rec)
         /\ LET e == Rec[l] IN
-           CASE e.ev = "begin" -> /\ table' = <<>> /\ wtable' = IF e.side = "r" THEN table ELSE <<>> /\ UNCHANGED viol
+           CASE e.ev = "begin" -> /\ table' = <<>> /\ wtable' = (IF e.side = "r" THEN table ELSE <<>>) /\ UNCHANGED viol
              [] e.ev = "str" /\ e.new = 1 ->
                   /\ viol' = Flag(e.id = Len(table) + 1 /\ ~Has(table, e.s), "a new string does not get the next id / was already in the table")
                   /\ table' = Append(table, e.s) /\ UNCHANGED wtable
